@@ -145,6 +145,20 @@ pub fn run(ctx: &Ctx) -> Report {
             if !check(&mut rep, &mut model, &cfg, &ops, &b, &s, &mut rng) && rep.full() { return rep; }
         }
     }
+    // alignment cases (see gens::aligned_ops): linear extraction reads across the block boundary sequentially
+    for residue in [1usize, 2] {
+        if let Some(ops) = aligned_ops(&mut rng, residue) {
+            for layers in [L_COMP | L_ENC, L_COMP] {
+                let mut cfg = Cfg::make(&mut rng, layers);
+                cfg.level = 5;
+                let b = build(&cfg, &ops);
+                rep.count("aligned");
+                for s in [vec!["a".to_string(), "b".to_string()], vec!["b".to_string()]] {
+                    if !check(&mut rep, &mut model, &cfg, &ops, &b, &s, &mut rng) && rep.full() { return rep; }
+                }
+            }
+        }
+    }
     let n = if CONSTS.scaled { ctx.budget(300, 10000) } else { ctx.budget(24, 300) };
     for i in 0..n {
         let cfg = Cfg::make(&mut rng, (i % 4) as u8);
